@@ -83,7 +83,7 @@ Inductive ast :=
 | AMonth (m : Z)
 | ABinary (l : ast) (op : N) (r : ast)
 | APrefixUnary (op : N) (a : ast)
-| AAssignment (var : str) (e : ast)
+| AAssignment (var : str) (toks : list token) (e : ast)   (* variable: Rc<VariableInfo> = key + name tokens *)
 | ASymbol (v : str)
 | AVariable (name : str).
 
